@@ -117,7 +117,7 @@ func (w *world) reload() {
 
 // sign runs one session. mode: "", "silence", "tamper". Returns the signature data if completed.
 func (w *world) sign(signers []int, reversed bool, mode string, kdd *big.Int, ecKeysOverride []eckg.LocalPartySaveData, pub *crypto.ECPoint, label string) {
-	cfg := netrun.Config{Threshold: w.t, Msg: w.msg, RealRand: true, ShareKeys: true}
+	cfg := netrun.Config{Threshold: w.t, Msg: w.msg, RealRand: true, ShareKeys: true, PartialKeyLabel: "c20/partial-key"}
 	if reversed {
 		cfg.IDOrder = []int{1, 0}
 	}
@@ -367,6 +367,7 @@ func Run(r *core.Run) {
 	r.Set("transitions", int(r.Get("sessions")))
 	r.Set("traces_validated_against_impl", int(r.Get("sequences")))
 	r.Set("rule", fmt.Sprintf("every operation sequence of length <= %d over the alphabet %v (ECDSA) / the same without the offset operation (EdDSA), each executed on real parties from a fresh copy of one generated (3,1) key; a sequence is one history, all are distinct", maxLen, ops))
+	r.Assume("every signing session is configured with the SAME seed-derived partial-key reader (Parameters.SetPartialKeyRand, the hook that makes keygen reproducible) next to the default entropy source: nonces must be fresh regardless")
 	r.Assume("sessions use the library's default entropy (crypto/rand) as in production; equal nonces from a shared seeded reader would be the harness's fault")
 	r.Assume("a caller that signs with a derivation offset adjusts a deep copy of the stored data (UpdatePublicKeyAndAdjustBigXj mutates the slice it is given)")
 }
